@@ -743,6 +743,58 @@ def _emit_overwrite(repo, out):
     out.append(';\n'.join('  (' + ', '.join(q(t) for t in site) + ')' for site in sites))
     out.append('].')
 
+
+# ------------------------------------------------------------------ which code each arm of a backend-conditional branch runs
+BRANCH_FLAGS = ('_HAS_NUMBA', '_HAS_PENTAPY', '_use_numba', 'using_pentapy')
+
+
+def _arm_callees(stmts):
+    names = set()
+    for st in stmts:
+        for n in ast.walk(st):
+            if isinstance(n, ast.Call):
+                names.add(_u(n.func))
+            elif isinstance(n, ast.Assign) and isinstance(n.value, (ast.Name, ast.Attribute)):
+                names.add('=' + _u(n.value))       # e.g. basis_func = _make_design_matrix
+    return ' '.join(sorted(names))
+
+
+def _flag_branches(repo):
+    import os
+    from trlib import REPO
+    root = os.path.join(repo or REPO, 'pybaselines')
+    files = []
+    for d, dirs, fs in os.walk(root):
+        dirs[:] = sorted(x for x in dirs if x != '__pycache__')
+        files += [os.path.relpath(os.path.join(d, f), os.path.join(root, '..')) for f in sorted(fs) if f.endswith('.py')]
+    out = []
+    for rel in sorted(files):
+        tree, _ = _parse(rel, repo)
+        for qual, fn in _enclosing_functions(tree):
+            for n in _own_nodes(fn):
+                if isinstance(n, (ast.If, ast.IfExp)):
+                    test = _u(n.test)
+                    ids = {m.id for m in ast.walk(n.test) if isinstance(m, ast.Name)} | \
+                          {m.attr for m in ast.walk(n.test) if isinstance(m, ast.Attribute)}
+                    if not ids & set(BRANCH_FLAGS):
+                        continue
+                    if isinstance(n, ast.IfExp):
+                        out.append((rel, qual, test[:80], _u(n.body)[:80], _u(n.orelse)[:80]))
+                    else:
+                        out.append((rel, qual, test[:80], _arm_callees(n.body), _arm_callees(n.orelse)))
+    return sorted(out)
+
+
+def _emit_branches(repo, out):
+    def q(t):
+        return '"' + t.replace('"', "'") + '"%string'
+    br = _flag_branches(repo)
+    out.append('(* every branch whose condition mentions a backend flag: (file, function, condition, what the true arm calls,')
+    out.append('   what the else arm calls) *)')
+    out.append('Definition flag_branches : list (string * string * string * string * string) := [')
+    out.append(';\n'.join('  (' + ', '.join(q(t) for t in b) + ')' for b in br))
+    out.append('].')
+
 tree2 = [None]
 
 
@@ -767,6 +819,7 @@ def gen_c10(repo=None):
     _compat(tco, out)
     _emit_sites(repo, out)
     _emit_overwrite(repo, out)
+    _emit_branches(repo, out)
     return '\n'.join(out) + '\n'
 
 
